@@ -42,9 +42,15 @@ pub fn session(rng: &mut Rng, kmax: usize) -> (Vec<Item>, Vec<String>) {
         "(define (outer n) (let ((r (inner n))) (+ r 1)))",
         "(define (inner n) (if (> n 2) (* 2 (deep n '())) n))",
         "(define (sum-to n) (if (= n 0) 0 (+ n (sum-to (- n 1)))))",
+        "(define deepsaved #f)",
+        "(define (deepk n) (if (= n 0) (call/cc (lambda (k) (set! deepsaved k) 0)) (+ 1 (deepk (- n 1)))))",
     ] {
         items.push(same(d));
     }
+    // a continuation captured deep in a non-tail recursion (several hundred stack slots), kept for later
+    let deep = 40 + rng.below(100);
+    items.push(same(&format!("(deepk {})", deep)));
+    let mut reentries = 0;
     let n = 5 + rng.below(8);
     let mut have_saved = false;
     for _ in 0..n {
@@ -140,6 +146,11 @@ pub fn session(rng: &mut Rng, kmax: usize) -> (Vec<Item>, Vec<String>) {
                 tags.push("probe-failing".into());
                 items.push(probe(&format!("(outer {})", 3 + rng.below(5))));
             }
+            14 if rng.chance(1, 2) && reentries < 3 => {
+                tags.push("probe-deep-reentry".into());
+                reentries += 1;
+                items.push(probe(&format!("(deepsaved {})", val)));
+            }
             14 => {
                 if have_saved {
                     tags.push("probe-reentry".into());
@@ -151,6 +162,9 @@ pub fn session(rng: &mut Rng, kmax: usize) -> (Vec<Item>, Vec<String>) {
                 items.push(probe("(vector-ref v 10)"));
             }
         }
+    }
+    if reentries < 3 {
+        items.push(probe("(deepsaved 1000)"));
     }
     // closing probes: state and a failing probe with a multi-frame trace
     items.push(probe("(list g (vector->list v) acc)"));
